@@ -41,31 +41,37 @@ Kinds   == {"oriented", "pm", "custom", "custompm"}
 T0s     == 0..2
 P0s     == IF Scale = 1 THEN {<<1, 2>>} ELSE {<<1, 2>>, <<-3, 0>>}
 StepP(p, m, i) == <<p[1] + i * m.dx, p[2] + i * m.dy>>
-TrajOf(kind, t0, n, p0, q0, m) ==
-    [i \in 1..n |-> LET p == StepP(p0, m, i) IN St(kind, t0 + i, p[1], p[2], (q0 + i * m.dq) % 4)]
+Gaps    == {1, 2}                                                   \* non-zero gaps between t0 and the first prediction step
+TrajOf(kind, t0, g, n, p0, q0, m) ==       \* contiguous states for the steps t0+1+g .. t0+g+n
+    [i \in 1..n |-> LET p == StepP(p0, m, i) IN St(kind, t0 + g + i, p[1], p[2], (q0 + i * m.dq) % 4)]
 OccShapes(f) == IF f = 1 THEN <<ShRect31, ShTri>> ELSE <<ShDisc, ShCross>>
-OccsOf(f, t0, n, p0, q0, m) ==
-    [i \in 1..n |-> LET p == StepP(p0, m, i) IN [t |-> t0 + i, shape |-> OccShapes(f)[i], pose |-> <<p[1], p[2], (q0 + i) % 4>>]]
+OccsOf(f, t0, g, n, p0, q0, m) ==
+    [i \in 1..n |-> LET p == StepP(p0, m, i) IN [t |-> t0 + g + i, shape |-> OccShapes(f)[i], pose |-> <<p[1], p[2], (q0 + i) % 4>>]]
+PTraj(g, sts) == [k |-> "traj", g |-> g, states |-> sts]
+PSet(g, occs) == [k |-> "set", g |-> g, occs |-> occs]
 
-Preds(t0, p0, q0, free) ==
+Preds(t0, g, p0, q0, free) ==
     {[k |-> "none"]}
-    \cup {[k |-> "traj", states |-> TrajOf(kind, t0, n, p0, q0, m)] :
-             kind \in Kinds, n \in 1..3, m \in (IF free THEN Motions ELSE {M1})}
-    \cup {[k |-> "set", occs |-> OccsOf(f, t0, n, p0, q0, M2)] : f \in {1, 2}, n \in 1..2}
+    \cup {PTraj(g, TrajOf(kind, t0, g, n, p0, q0, m)) : kind \in Kinds, n \in 1..3, m \in (IF free THEN Motions ELSE {M1})}
+    \cup {PSet(g, OccsOf(f, t0, g, n, p0, q0, M2)) : f \in {1, 2}, n \in 1..2}
 Ob(id, role, type, t0, sh, init, pr) ==
     [id |-> id, role |-> role, type |-> type, t0 |-> t0, shape |-> sh, init |-> init, pred |-> pr]
 Phantom(id, t0, pr) == [id |-> id, role |-> "phantom", type |-> "none", t0 |-> t0, pred |-> pr]
 
-DynObs == UNION {{Ob(1, "dynamic", "car", t0, sh, St("initial", t0, p0[1], p0[2], q0), pr) : pr \in Preds(t0, p0, q0, TRUE)} :
+GapShapes == IF Scale = 1 THEN {ShRect31, ShTri, ShCross} ELSE FreeShapes       \* reduced set for the gap dimension
+GapQs     == IF Scale = 1 THEN {0, 1} ELSE 0..3
+DynObs == UNION {{Ob(1, "dynamic", "car", t0, sh, St("initial", t0, p0[1], p0[2], q0), pr) : pr \in Preds(t0, 0, p0, q0, TRUE)} :
                    t0 \in T0s, p0 \in P0s, q0 \in 0..3, sh \in FreeShapes}
-          \cup UNION {{Ob(1, "dynamic", "car", t0, ShTrain, St("initial", t0, p0[1], p0[2], 0), pr) : pr \in Preds(t0, p0, 0, FALSE)} :
+          \cup UNION {{Ob(1, "dynamic", "car", t0, ShTrain, St("initial", t0, p0[1], p0[2], 0), pr) : pr \in Preds(t0, 0, p0, 0, FALSE)} :
                    t0 \in T0s, p0 \in P0s}
+          \cup UNION {{Ob(1, "dynamic", "car", t0, sh, St("initial", t0, p0[1], p0[2], q0), pr) : pr \in Preds(t0, g, p0, q0, TRUE)} :
+                   t0 \in T0s, g \in Gaps, p0 \in P0s, q0 \in GapQs, sh \in GapShapes}
 StaObs == {Ob(1, "static", "parkedVehicle", t0, sh, St("initial", t0, p0[1], p0[2], q0), [k |-> "none"]) :
                t0 \in T0s, p0 \in P0s, q0 \in 0..3, sh \in FreeShapes}
           \cup {Ob(1, "static", "parkedVehicle", t0, ShTrain, St("initial", t0, p0[1], p0[2], 0), [k |-> "none"]) : t0 \in T0s, p0 \in P0s}
 PhaObs == {Phantom(1, t0, [k |-> "none"]) : t0 \in T0s}
-          \cup {Phantom(1, t0, [k |-> "set", occs |-> OccsOf(f, t0, n, p0, q0, M2)]) :
-                   t0 \in T0s, p0 \in P0s, q0 \in {0, 1}, f \in {1, 2}, n \in 1..2}
+          \cup {Phantom(1, t0, PSet(g, OccsOf(f, t0, g, n, p0, q0, M2))) :
+                   t0 \in T0s, g \in {0} \cup Gaps, p0 \in P0s, q0 \in {0, 1}, f \in {1, 2}, n \in 1..2}
 EnvObs == {Ob(1, "environment", "building", 0, sh, St("initial", 0, p0[1], p0[2], q0), [k |-> "none"]) :
                p0 \in P0s, q0 \in 0..3, sh \in FreeShapes}
 
@@ -86,8 +92,11 @@ UncObs ==
     {Ob(1, "static", "parkedVehicle", 1, sh, USt("initial", 1, 1, 2, u.q1, u), [k |-> "none"]) : sh \in UncShapes, u \in UncSpecs}
     \cup {Ob(1, "dynamic", "car", 1, sh, USt("initial", 1, 1, 2, u.q1, u), [k |-> "none"]) : sh \in UncShapes, u \in UncSpecs}
     \cup {Ob(1, "dynamic", "car", 1, sh, St("initial", 1, 1, 2, 1),
-             [k |-> "traj", states |-> <<St(kind, 2, 2, 2, 1), USt(kind, 3, 3, 2, u.q1, u)>>]) :
+             PTraj(0, <<St(kind, 2, 2, 2, 1), USt(kind, 3, 3, 2, u.q1, u)>>)) :
              sh \in UncShapes, u \in UncSpecs, kind \in {"oriented", "custom"}}
+    \cup {Ob(1, "dynamic", "car", 1, sh, St("initial", 1, 1, 2, 1),                      \* uncertain state behind a gap of 2
+             PTraj(2, <<USt("oriented", 4, 2, 2, u.q1, u), St("oriented", 5, 3, 2, 1)>>)) :
+             sh \in {ShRect31, ShTri}, u \in UncSpecs}
 
 ObDescs == DynObs \cup StaObs \cup PhaObs \cup EnvObs \cup UncObs
 
@@ -95,15 +104,17 @@ ObDescs == DynObs \cup StaObs \cup PhaObs \cup EnvObs \cup UncObs
 Red(i) ==
     CASE i = 1 -> Ob(1, "static", "parkedVehicle", 0, ShRect42, St("initial", 0, 0, 0, 1), [k |-> "none"])
       [] i = 2 -> Ob(2, "dynamic", "car", 1, ShRect31, St("initial", 1, 1, 1, 0),
-                     [k |-> "traj", states |-> TrajOf("oriented", 1, 2, <<1, 1>>, 0, M1)])
-      [] i = 3 -> Ob(3, "dynamic", "truck", 0, ShRect42, St("initial", 0, 2, 3, 0), [k |-> "set", occs |-> OccsOf(1, 0, 2, <<2, 3>>, 0, M2)])
+                     PTraj(0, TrajOf("oriented", 1, 0, 2, <<1, 1>>, 0, M1)))
+      [] i = 3 -> Ob(3, "dynamic", "truck", 0, ShRect42, St("initial", 0, 2, 3, 0), PSet(1, OccsOf(1, 0, 1, 2, <<2, 3>>, 0, M2)))   \* gap 1
       [] i = 4 -> Ob(4, "dynamic", "car", 2, ShDisc, St("initial", 2, 3, 2, 2), [k |-> "none"])
-      [] i = 5 -> Phantom(5, 1, [k |-> "set", occs |-> OccsOf(2, 1, 2, <<1, 0>>, 0, M1)])
+      [] i = 5 -> Phantom(5, 1, PSet(0, OccsOf(2, 1, 0, 2, <<1, 0>>, 0, M1)))
       [] i = 6 -> Phantom(6, 0, [k |-> "none"])
       [] i = 7 -> Ob(7, "environment", "building", 0, ShRect42, St("initial", 0, 2, 3, 0), [k |-> "none"])
       [] i = 8 -> Ob(8, "dynamic", "car", 0, ShCross, St("initial", 0, 5, 5, 1),
-                     [k |-> "traj", states |-> TrajOf("pm", 0, 3, <<5, 5>>, 1, M1)])
-RedIds == 1..8
+                     PTraj(0, TrajOf("pm", 0, 0, 3, <<5, 5>>, 1, M1)))
+      [] i = 9 -> Ob(9, "dynamic", "car", 0, ShRect31, St("initial", 0, 1, 0, 0),       \* gap 2: known at 0, predicted for 3..4
+                     PTraj(2, TrajOf("custom", 0, 2, 2, <<1, 0>>, 0, M1)))
+RedIds == 1..9
 MaxSc  == IF Scale = 1 THEN 3 ELSE 4
 RECURSIVE SortedSeq(_)
 SortedSeq(I) == IF I = {} THEN <<>> ELSE LET m == CHOOSE x \in I : \A y \in I : x <= y IN <<m>> \o SortedSeq(I \ {m})
@@ -114,7 +125,7 @@ QRoles    == <<"any", "static", "dynamic", "phantom", "environment">>
 QTypes    == <<"any", "car", "truck", "building">>
 QIvs      == <<<<0, 1>>, <<1, 3>>, <<-9, 9>>>>                        \* 3 x 3 family of position intervals
 QRoleSets == <<<<"dynamic", "static">>, <<"static", "dynamic", "phantom", "environment">>, <<"phantom">>, <<"environment">>>>
-QTimes    == <<0, 2, 3>>
+QTimes    == <<0, 1, 3>>
 
 (* ---- model -------------------------------------------------------------------------------------------- *)
 Dummy == Phantom(0, 0, [k |-> "none"])
@@ -128,11 +139,19 @@ Spec == Init /\ [][Next]_vars
 (* ---- laws of the per-obstacle operators --------------------------------------------------------------- *)
 LawSourceUnique == mode = "ob" => Cardinality(Sources(o, t)) <= 1                      \* the clauses never compete
 LawSourceTotal  == mode = "ob" => ((Sources(o, t) # {}) <=> InHorizon(o, t))           \* exactly one in, none outside
-LawHorizon ==                                                                          \* horizon = [t0, t0 + len]
+LawHorizon ==                                               \* horizon = {t0} union [t0 + 1 + g, t0 + g + len]
     mode = "ob" /\ o.role = "dynamic" =>
-        /\ (Occ(o, t).k # "None" \/ IsUncertain(o, t)) <=> (o.t0 <= t /\ t <= o.t0 + PredLen(o))
-        /\ Source(o, o.t0).k = "Initial"
-        /\ (PredLen(o) > 0 => Source(o, o.t0 + PredLen(o)).k \in {"Traj", "SetOcc"} /\ Source(o, o.t0 + PredLen(o) + 1).k = "None")
+        LET g == PredGap(o)  n == PredLen(o)
+        IN /\ (Occ(o, t).k # "None") <=> (t = o.t0 \/ (o.t0 + 1 + g <= t /\ t <= o.t0 + g + n))
+           /\ Source(o, o.t0).k = "Initial"
+           /\ (n > 0 => /\ Source(o, o.t0 + g + 1).k \in {"Traj", "SetOcc"} /\ Source(o, o.t0 + g + 1).i = 1
+                         /\ Source(o, o.t0 + g + n).k \in {"Traj", "SetOcc"} /\ Source(o, o.t0 + g + n).i = n
+                         /\ Source(o, o.t0 + g + n + 1).k = "None")
+LawGap ==                                                   \* inside the gap: no state, no occupancy, no position
+    mode = "ob" /\ InGap(o, t) =>
+        /\ PredGap(o) > 0 /\ ~InHorizon(o, t)
+        /\ Sources(o, t) = {} /\ Occ(o, t) = NoneV /\ StateAt(o, t) = NoneV /\ Centre(o, t) = NoneV
+        /\ \A ix \in Range(QIvs), iy \in Range(QIvs) : PosVerdict(o, ix, iy, {"static", "dynamic", "phantom", "environment"}, t) = "F"
 LawNoneOutside == mode = "ob" => ((Source(o, t).k = "None") <=> ~InHorizon(o, t))
 LawStateTime ==                                                                        \* the state returned for t has time step t
     mode = "ob" /\ o.role = "dynamic" =>
@@ -201,7 +220,7 @@ UncTimes(ob) == {tt \in 0..TMax : IsUncertain(ob, tt)}
 Case == IF mode = "ob"
         THEN [kind |-> "ob", o |-> o, tmax |-> TMax,
               obl |-> {[t |-> tt, poses |-> Obligations(SrcState(o, tt))] : tt \in UncTimes(o)}]
-        ELSE [kind |-> "sc", S |-> S, tmax |-> 4, roles |-> QRoles, types |-> QTypes, ivs |-> QIvs,
+        ELSE [kind |-> "sc", S |-> S, tmax |-> 5, roles |-> QRoles, types |-> QTypes, ivs |-> QIvs,
               rolesets |-> QRoleSets, times |-> QTimes]
 Emit == t = 0 => PrintT(<<"CASE", ToJson(Case)>>)
 =================================================================================
